@@ -57,11 +57,12 @@ const (
 	c05TwoInOne           // two entries without newline between (N: nothing / CR / blank)
 	c05Binary             // N-keyed arbitrary bytes
 	c05BOM                // U+FEFF in front of an entry
+	c05Pieces             // ONE physical line holding 2..3 entries, blank-padded so that entry i starts exactly at byte i*P of the line (P = a buffer size of bufio, c05PieceSizes)
 	c05NKinds
 )
 
 var c05KindName = [...]string{"valid", "valid-padded", "blank", "space", "comment", "wrong-prefix", "truncated", "overlong",
-	"non-base64", "key31", "key33", "long-line", "trailing-text", "two-in-one", "binary", "bom"}
+	"non-base64", "key31", "key33", "long-line", "trailing-text", "two-in-one", "binary", "bom", "buffer-aligned-pieces"}
 
 type c05Line struct {
 	K   int `json:"k"`
@@ -101,6 +102,24 @@ type c05Case struct {
 }
 
 const c05LongLen = 70000 // > bufio.MaxScanTokenSize (64 KiB)
+
+// c05PieceSizes: the distances at which the entries of a c05Pieces line start. They are the sizes in which
+// buffered readers hand out or grow their data (bufio: 4096 default reader / initial scanner buffer, its
+// doublings, 64 KiB maximal token; 512 and 1024 for smaller buffers): a parser that takes every buffer-full
+// of one long line for a line of its own reads such a line as several well-formed entries. The file format
+// is line based - one entry per PHYSICAL line -, so the line is one malformed entry and lists no key.
+var c05PieceSizes = []int{4096, 4096, 8192, 65536, 512, 1024, 4096}
+
+// c05PiecesShape decodes N of a c05Pieces line: distance between entry starts, number of entries, the
+// padding character, and whether the last piece is padded to the full distance as well.
+func c05PiecesShape(n int) (size, count int, pad byte, padLast bool) {
+	size = c05PieceSizes[n%len(c05PieceSizes)]
+	n /= len(c05PieceSizes)
+	return size, 2 + n%2, " \t"[n/2%2], n/4%2 == 1
+}
+
+// c05PiecesKey: the key of the i-th entry of a c05Pieces line (consecutive fixture keys, all different).
+func c05PiecesKey(l c05Line, i int) int { return (l.Key + i) % verifAuthzNKeys }
 
 func c05B64(k keys.DHPublicKey) string { return base64.StdEncoding.EncodeToString(k[:]) }
 
@@ -160,6 +179,16 @@ func c05RenderLine(l c05Line) []byte {
 		return vlib.Fill(uint64(n), 1+n%40)
 	case c05BOM:
 		return []byte("\ufeff" + pre + b64)
+	case c05Pieces:
+		size, count, pad, padLast := c05PiecesShape(n)
+		var out []byte
+		for i := 0; i < count; i++ {
+			out = append(out, c05Entry(c05PiecesKey(l, i))...)
+			if i < count-1 || padLast {
+				out = append(out, bytes.Repeat([]byte{pad}, (i+1)*size-len(out))...)
+			}
+		}
+		return out
 	}
 	return nil
 }
@@ -531,6 +560,19 @@ func c05Run(c c05Case, v *vlib.Verdict) {
 			if nearGrant(uk) {
 				labels["login-as-near-collision-of-a-granted-user"] = true
 			}
+			if cur := files[user]; cur.exists && !cur.dir {
+				for _, l := range written[user] {
+					if l.K != c05Pieces {
+						continue
+					}
+					size, count, _, _ := c05PiecesShape(l.N)
+					for j := 0; j < count; j++ {
+						if verifAuthzKey(c05PiecesKey(l, j)) == key {
+							labels[fmt.Sprintf("login-with-entry-%d-of-a-buffer-aligned-line:distance=%d", j+1, size)] = true
+						}
+					}
+				}
+			}
 			for o, of := range files {
 				if verifAuthzNear(o, user) && of.entries[key] {
 					labels["login-as-near-collision-of-a-user-listing-the-key"] = true
@@ -631,6 +673,10 @@ func c05GenLine(t *rapid.T) c05Line {
 	l := c05Line{K: kind, Key: rapid.SampledFrom(c05KeyBias).Draw(t, "lkey")}
 	switch kind {
 	case c05Valid, c05Blank, c05Key31, c05Trailing, c05BOM:
+	case c05Pieces:
+		// every shape (7 distances x 2..3 entries x blank / tab x last piece padded or not) directly, not through
+		// the small-biased integer draw
+		l.N = rapid.IntRange(0, len(c05PieceSizes)*8-1).Draw(t, "pieces-shape")
 	default:
 		l.N = rapid.IntRange(0, 1000).Draw(t, "n")
 	}
@@ -724,6 +770,25 @@ func c05SelfTest(t *testing.T) {
 			}
 			if (kind == c05Valid) != f.canonical {
 				t.Fatalf("VERIF-MACHINERY reference parser: canonical=%v for line kind %s", f.canonical, c05KindName[kind])
+			}
+		}
+	}
+	// buffer-aligned lines: one physical line, entry i exactly at byte i*distance, nothing but blanks between
+	for n := 0; n < len(c05PieceSizes)*8; n++ {
+		l := c05Line{K: c05Pieces, Key: n % verifAuthzNKeys, N: n}
+		line := c05RenderLine(l)
+		size, count, _, padLast := c05PiecesShape(n)
+		if bytes.ContainsAny(line, "\r\n") || (padLast && len(line) != count*size) || (!padLast && len(line) != (count-1)*size+len(c05Entry(0))) {
+			t.Fatalf("VERIF-MACHINERY buffer-aligned line n=%d: %d bytes, distance %d, %d entries", n, len(line), size, count)
+		}
+		for i := 0; i < count; i++ {
+			e := c05Entry(c05PiecesKey(l, i))
+			piece := line[i*size:]
+			if len(piece) > size {
+				piece = piece[:size]
+			}
+			if !bytes.HasPrefix(piece, []byte(e)) || strings.TrimSpace(string(piece)) != e {
+				t.Fatalf("VERIF-MACHINERY buffer-aligned line n=%d: piece %d is not entry K%d surrounded by blanks", n, i, c05PiecesKey(l, i)+1)
 			}
 		}
 	}
